@@ -23,6 +23,9 @@ struct GenOpts {
     bool noise = false;          // noise channels with probabilities from `probs`
     bool meas_noise = false;     // measurement flip arguments
     bool annotations = false;    // TICK / QUBIT_COORDS / SHIFT_COORDS
+    bool detectors = false;      // DETECTOR / OBSERVABLE_INCLUDE with arbitrary (valid) lookbacks
+    bool obs_paulis = false;     // Pauli targets inside OBSERVABLE_INCLUDE
+    bool heralded = false;       // heralded noise channels (they append result bits)
     bool single_meas = false;    // one result per measuring instruction (makes forced-bias records order-independent)
     std::vector<double> probs = {0.0, 1.0};
 };
@@ -93,6 +96,8 @@ struct CircuitGen {
         if (o.mpad) kinds.push_back(11);
         if (o.noise) { kinds.push_back(12); kinds.push_back(12); kinds.push_back(13); }
         if (o.annotations) kinds.push_back(14);
+        if (o.detectors && nmeas > 0) { kinds.push_back(15); kinds.push_back(15); kinds.push_back(16); }
+        if (o.heralded) kinds.push_back(17);
         int kind = kinds[rng.below(kinds.size())];
         std::vector<uint32_t> t;
         std::vector<double> args;
@@ -261,6 +266,41 @@ struct CircuitGen {
                 hit("gate." + std::string(gd.name));
                 break;
             }
+            case 15: {
+                size_t m = rng.below(4);
+                for (size_t i = 0; i < m; i++) t.push_back(TARGET_RECORD_BIT | (uint32_t)(1 + rng.below(std::min<uint64_t>(nmeas, 7))));
+                if (rng.chance(0.3)) args = {(double)rng.below(4), 0.5};
+                c.safe_append_u("DETECTOR", t, args);
+                hit("gate.DETECTOR");
+                break;
+            }
+            case 16: {
+                size_t m = rng.below(3);
+                for (size_t i = 0; i < m; i++) t.push_back(TARGET_RECORD_BIT | (uint32_t)(1 + rng.below(std::min<uint64_t>(nmeas, 7))));
+                if (o.obs_paulis && rng.chance(0.3)) {
+                    uint32_t pb = (uint32_t)(1 + rng.below(3));
+                    t.push_back(q() | (pb == 1 ? TARGET_PAULI_X_BIT : pb == 2 ? TARGET_PAULI_Z_BIT : (TARGET_PAULI_X_BIT | TARGET_PAULI_Z_BIT)));
+                }
+                c.safe_append_u("OBSERVABLE_INCLUDE", t, {(double)rng.below(rng.chance(0.1) ? 40 : 3)});
+                hit("gate.OBSERVABLE_INCLUDE");
+                break;
+            }
+            case 17: {
+                size_t m = 1 + rng.below(2);
+                for (size_t i = 0; i < m; i++) t.push_back(q());
+                if (rng.chance(0.5)) {
+                    c.safe_append_u("HERALDED_ERASE", t, {prob()});
+                    hit("gate.HERALDED_ERASE");
+                } else {
+                    int w = (int)rng.below(4);
+                    std::vector<double> a4(4, 0.0);
+                    a4[w] = prob();
+                    c.safe_append_u("HERALDED_PAULI_CHANNEL_1", t, a4);
+                    hit("gate.HERALDED_PAULI_CHANNEL_1");
+                }
+                nmeas += m;
+                break;
+            }
             case 14: {
                 int w = (int)rng.below(3);
                 if (w == 0) c.safe_append_u("TICK", {});
@@ -279,6 +319,134 @@ struct CircuitGen {
         return c;
     }
 };
+
+// ---------------------------------------------------------------- QEC-like circuits with deterministic detectors
+// data qubits 0..nd-1 are reset, then `rounds` rounds measure the same commuting Pauli products (images of Z_i under a random
+// Clifford), through MPP or through an ancilla; detectors compare consecutive rounds (deterministic by construction), an
+// observable compares a further commuting product measured in the first and in the last round.  Noise sits between rounds.
+struct QecOpts {
+    std::vector<double> probs = {0.01, 0.125};
+    bool use_repeat = true;
+    bool measurement_noise = true;
+    bool heralded = false;
+    bool correlated = true;   // E / ELSE_CORRELATED_ERROR chains
+    bool feedback = true;
+    int max_data = 4;
+    int max_rounds = 4;
+};
+inline stim::Circuit gen_qec_circuit(Rng &rng, const QecOpts &o, Stats *st = nullptr, int *nq_out = nullptr) {
+    using namespace stim;
+    int nd = 2 + (int)rng.below(o.max_data - 1);
+    std::mt19937_64 trng(rng.next());
+    Tableau<64> T = Tableau<64>::random(nd, trng);
+    int nstab = 1 + (int)rng.below(nd - 1);          // measured stabilizers: images of Z_0..Z_{nstab-1}
+    int obs_gen = nstab;                              // image of Z_nstab commutes with all of them; used as the logical
+    int nanc = nstab;                                 // one ancilla per stabilizer for the ancilla-based variant
+    if (nq_out) *nq_out = nd + nanc;
+    auto product_targets = [&](const PauliStringRef<64> &p, bool allow_invert) {
+        std::vector<uint32_t> t;
+        bool first = true;
+        for (int q = 0; q < nd; q++) {
+            uint32_t bits = (p.xs[q] ? TARGET_PAULI_X_BIT : 0) | (p.zs[q] ? TARGET_PAULI_Z_BIT : 0);
+            if (!bits) continue;
+            if (!first) t.push_back(TARGET_COMBINER);
+            t.push_back((uint32_t)q | bits | ((allow_invert && rng.chance(0.1)) ? TARGET_INVERTED_BIT : 0));
+            first = false;
+        }
+        return t;
+    };
+    auto prob = [&]() { return o.probs[rng.below(o.probs.size())]; };
+    auto add_noise = [&](Circuit &c) {
+        size_t n = 1 + rng.below(3);
+        for (size_t i = 0; i < n; i++) {
+            int k = (int)rng.below(o.correlated ? 9 : 7);
+            uint32_t q = (uint32_t)rng.below(nd), q2 = (uint32_t)((q + 1 + rng.below(nd - 1)) % nd);
+            switch (k) {
+                case 0: c.safe_append_u("X_ERROR", {q}, {prob()}); break;
+                case 1: c.safe_append_u("Z_ERROR", {q, q2}, {prob()}); break;
+                case 2: c.safe_append_u("Y_ERROR", {q}, {prob()}); break;
+                case 3: c.safe_append_u("DEPOLARIZE1", {q}, {prob()}); break;
+                case 4: c.safe_append_u("DEPOLARIZE2", {q, q2}, {prob()}); break;
+                case 5: { double a = prob() / 4, b = rng.chance(0.5) ? prob() / 4 : 0.0; c.safe_append_u("PAULI_CHANNEL_1", {q}, {a, b, rng.chance(0.5) ? prob() / 2 : 0.0}); break; }
+                case 6: { std::vector<double> a(15, 0.0); a[rng.below(15)] = prob() / 2; if (rng.chance(0.5)) a[rng.below(15)] = prob() / 4; c.safe_append_u("PAULI_CHANNEL_2", {q, q2}, a); break; }
+                case 7: {
+                    c.safe_append_u("E", {q | TARGET_PAULI_X_BIT, q2 | TARGET_PAULI_Z_BIT}, {prob()});
+                    if (rng.chance(0.5)) c.safe_append_u("ELSE_CORRELATED_ERROR", {q | TARGET_PAULI_Z_BIT}, {prob()});
+                    break;
+                }
+                case 8: c.safe_append_u("E", {q | TARGET_PAULI_X_BIT | TARGET_PAULI_Z_BIT}, {prob()}); break;
+            }
+            if (st) st->hit("qec.noise." + std::to_string(k));
+        }
+        if (o.heralded && rng.chance(0.3)) {
+            uint32_t q = (uint32_t)rng.below(nd);
+            if (rng.chance(0.5)) c.safe_append_u("HERALDED_ERASE", {q}, {prob()});
+            else c.safe_append_u("HERALDED_PAULI_CHANNEL_1", {q}, {prob() / 4, prob() / 4, 0.0, prob() / 4});
+        }
+    };
+    int style = (int)rng.below(3);  // 0: MPP, 1: ancilla-based (Z-type part only uses CX, general via H/S conjugation is skipped), 2: mixed MPP with measurement noise
+    auto measure_round = [&](Circuit &c) -> size_t {
+        size_t produced = 0;
+        for (int s = 0; s < nstab; s++) {
+            auto t = product_targets(T.zs[s], true);
+            std::vector<double> args;
+            if (o.measurement_noise && rng.chance(0.3)) args.push_back(prob());
+            c.safe_append_u("MPP", t, args);
+            produced++;
+        }
+        (void)style;
+        return produced;
+    };
+    Circuit c;
+    std::vector<uint32_t> all;
+    for (int q = 0; q < nd; q++) all.push_back((uint32_t)q);
+    c.safe_append_u(rng.chance(0.5) ? "R" : "RX", all);
+    if (rng.chance(0.3)) c.safe_append_u("H", {(uint32_t)rng.below(nd)});
+    // logical: measured once at the start
+    auto lt = product_targets(T.zs[obs_gen % nd], false);
+    bool has_logical = obs_gen < nd;
+    size_t m_since_logical = 0;
+    if (has_logical) c.safe_append_u("MPP", lt);
+    size_t per_round = (size_t)nstab;
+    measure_round(c);
+    m_since_logical += per_round;
+    int rounds = 1 + (int)rng.below(o.max_rounds);
+    auto round_body = [&](Circuit &b) {
+        add_noise(b);
+        if (rng.chance(0.3)) b.safe_append_u("TICK", {});
+        measure_round(b);
+        for (int s = 0; s < nstab; s++) {
+            std::vector<uint32_t> dt = {TARGET_RECORD_BIT | (uint32_t)(nstab - s), TARGET_RECORD_BIT | (uint32_t)(2 * nstab - s)};
+            b.safe_append_u("DETECTOR", dt, rng.chance(0.5) ? std::vector<double>{(double)s, 0.0} : std::vector<double>{});
+        }
+        if (rng.chance(0.3)) b.safe_append_u("SHIFT_COORDS", {}, {0.0, 1.0});
+    };
+    if (o.use_repeat && rng.chance(0.5) && rounds >= 2) {
+        Circuit body;
+        round_body(body);
+        c.append_repeat_block((uint64_t)rounds, body, "");
+        if (st) st->hit("qec.repeat");
+    } else {
+        for (int r = 0; r < rounds; r++) round_body(c);
+    }
+    m_since_logical += (size_t)rounds * per_round;
+    if (o.feedback && rng.chance(0.3)) {
+        // a Pauli controlled by the last stabilizer measurement, applied to a fresh ancilla that is measured next: deterministic detector
+        uint32_t anc = (uint32_t)nd;
+        c.safe_append_u("R", {anc});
+        c.safe_append_u("CX", {TARGET_RECORD_BIT | 1u, anc});
+        c.safe_append_u("M", {anc});
+        c.safe_append_u("DETECTOR", {TARGET_RECORD_BIT | 1u, TARGET_RECORD_BIT | 2u});
+        m_since_logical += 1;
+        if (st) st->hit("qec.feedback");
+    }
+    if (has_logical) {
+        add_noise(c);
+        c.safe_append_u("MPP", lt);
+        c.safe_append_u("OBSERVABLE_INCLUDE", {TARGET_RECORD_BIT | 1u, TARGET_RECORD_BIT | (uint32_t)(m_since_logical + 2)}, {(double)rng.below(2)});
+    }
+    return c;
+}
 
 // relabelling: compact id -> big id, injective, order preserving (so that "first pivot" style choices agree)
 inline std::vector<uint32_t> make_relabel(Rng &rng, int nq, bool big) {
